@@ -65,9 +65,20 @@ class Z3Solver:
         self.den_cache: Dict[Tuple[T, ...], str] = {}
 
     # -------------------------------------------------------------- raw
-    def check(self, assertions: Sequence[T], timeout_ms: Optional[int] = None, kind: str = "main", strict_ints: bool = False):
+    def check(self, assertions: Sequence[T], timeout_ms: Optional[int] = None, kind: str = "main", strict_ints: bool = False, abstract_floor=None):
         """Returns (status, model dict or None, seconds). status in {'unsat','sat','unknown'}."""
         import z3
+
+        if abstract_floor is None and not strict_ints:
+            has_floor = any(n.op == "floor" for n in tm.postorder(list(assertions)))
+            if has_floor:
+                # abstraction first: floor as a bounded fresh real keeps the query in QF_NRA; unsat is sound
+                st, m, dt = self.check(assertions, timeout_ms, kind, strict_ints=False, abstract_floor=True)
+                if st == "unsat":
+                    return st, m, dt
+                st2, m2, dt2 = self.check(assertions, timeout_ms, kind, strict_ints=False, abstract_floor=False)
+                return st2, m2, dt + dt2
+        tm.set_abstract_floor(bool(abstract_floor))
 
         fv = tm.free_vars(assertions)
         has_int = any(k == "int" for k in fv.values())
@@ -78,7 +89,7 @@ class Z3Solver:
         ctx = tm.Z3Ctx()
         zs = [tm.to_z3(a, ctx) for a in assertions]
         ops = {n.op for n in tm.postorder(list(assertions))}
-        pure = not ({"floor", "fn"} & ops) and not (has_int and strict_ints)
+        pure = not (({"floor", "fn"} if not abstract_floor else {"fn"}) & ops) and not (has_int and strict_ints)
         s = z3.SolverFor("QF_NRA") if pure else z3.Solver()
         s.set("timeout", int(timeout_ms or self.timeout_ms))
         for z in zs:
@@ -108,10 +119,12 @@ class Z3Solver:
             if has_int and not strict_ints and any(kind_ == "int" and (model[name] is None or model[name].denominator != 1) for name, kind_ in fv.items()):
                 # relaxed model is not integral: decide again with integer sorts
                 tm.set_relax_ints(True)
-                st2, m2, dt2 = self.check(assertions, timeout_ms, kind, strict_ints=True)
+                tm.set_abstract_floor(False)
+                st2, m2, dt2 = self.check(assertions, timeout_ms, kind, strict_ints=True, abstract_floor=False)
                 tm.set_relax_ints(True)
                 return st2, m2, dt + dt2
         tm.set_relax_ints(True)
+        tm.set_abstract_floor(False)
         if self.cvc5 and status in ("unsat", "sat") and kind == "main":
             other = self._cvc5(s)
             if other in ("unsat", "sat"):
